@@ -104,7 +104,7 @@ def run(chk):
     recs = chk.generate(MODULE, "C14_gen.cfg", "gen", timeout=3000)
     for v in (["std"] if quick else ["std", "verify", "i64", "i128s", "noasm"]):
         chk.replay(no_zero_inverse(recs) if v == "verify" else recs, v, "generated boundary records")
-    chk.validate(driver(chk, 40 if quick else 400), MODULE, "C14_trace.cfg", "driver", timeout=3000)
+    chk.validate(driver(chk, 30 if quick else 400), MODULE, "C14_trace.cfg", "driver", timeout=3000)
     return chk.finish(LEVEL,
         "G: TLC enumerates Cases of C14_Adaptor.tla (pipelines over boundary keys/messages/nonce sources; all 1296 single-bit flips of an honest adaptor signature "
         "through verify, decrypt and recover; scalar and point replacements; bit flips of message and keys; low-S boundary decryptions; related/unrelated ECDSA "
